@@ -84,6 +84,23 @@ func runC01(c *Ctx) {
 	flips := c.N(14, 60)
 	for i := 0; i < n; i++ {
 		spec := genPESpec(rng, c.Bound(120, 600))
+		if i < 8 {
+			// directed: layouts in which a hashed range is empty -- the headers end right behind the
+			// certificate-table entry (five directories, no sections or only empty ones, no slack)
+			spec.nrva, spec.sohSlack, spec.gaps = 5, 0, nil
+			spec.plus = i%2 == 0
+			spec.sections, spec.fileOrder = nil, nil
+			if i >= 4 {
+				spec.sections, spec.fileOrder = []peSection{{size: 0}}, []int{0}
+				spec.gaps = []int{0}
+			}
+			if spec.trailing == 0 {
+				spec.trailing = 40 + rng.Intn(100)
+			}
+			if i%4 >= 2 {
+				spec.certs = nil
+			}
+		}
 		im := spec.build(rng)
 		class := fmt.Sprintf("pe32plus=%v/sections=%d/table=%v", spec.plus, len(spec.sections), len(spec.certs) > 0)
 		ok, pre, info := c.evalPE("synthetic/"+class, im.bytes)
